@@ -19,10 +19,11 @@ ASSUMPTIONS = ["BoundaryFree: no line of a contained part equals `--` + an enclo
                "it is the caller's responsibility)", "the mime crate returns the boundary parameter it was given (A4)"]
 EXHAUSTIVE_PARTS = []
 
-CTYPES = ["text/plain", "text/html", "text/plain; charset=utf-8", "application/octet-stream", "image/png", "application/pdf; name=\"x.pdf\""]
+CTYPES = ["text/plain", "text/html", "text/plain; charset=utf-8", "application/octet-stream", "image/png", "application/pdf; name=\"x.pdf\"",
+          "application/pdf; name=\"Invoice-Q3.PDF\"", "text/calendar; method=REQUEST; charset=utf-8", "application/x-Mixed; Name=\"CamelCase.Bin\""]
 CONTENTS = [b"hello", b"line1\nline2\n", b"", b"--", b"--x\r\n--x--\r\n", b"-- \n", b"caf\xc3\xa9", b"\x00\x01\xff binary", b"a" * 100, b"x\r\n.\r\ny",
             b"--boundary\n", b"=3D=\n", b"trailing space \n", b"\r\n\r\n", b"From: inj@x\n\nbody"]
-BOUNDARIES = ["-", "-", "-", "a b", "=_x'()+_,-./:=?", "simple", "x" * 70, "0"]
+BOUNDARIES = ["-", "-", "-", "a b", "=_x'()+_,-./:=?", "simple", "x" * 70, "0", "y" * 71, "z" * 100, "Upper-CASE_boundary"]
 
 
 def valid_utf8(b):
@@ -33,7 +34,7 @@ def valid_utf8(b):
         return False
 
 
-ATT_NAMES = ["x.txt", "report final.pdf", 'report "final".pdf', "C:\\temp\\new.txt", "résumé.pdf", "日本語.txt", "a" * 70 + ".bin", 'q"' * 10, "semi;colon.txt",
+ATT_NAMES = ["and/or.txt", "minutes 2024/06/30.txt", "/etc/passwd", "dir\\sub\\file.txt", "trailing/", "Invoice-Q3.PDF", "x.txt", "report final.pdf", 'report "final".pdf', "C:\\temp\\new.txt", "résumé.pdf", "日本語.txt", "a" * 70 + ".bin", 'q"' * 10, "semi;colon.txt",
              "it's", "a b c " * 12, "trailing\\", "=?utf-8?b?eA==?=.txt"]
 CIDS = ["img1", "part1.06090408.01060107@example.org", "a b"]
 
